@@ -6,7 +6,7 @@ print("|---|---|---|---|")
 for d in sorted(glob.glob('/verif/seeded/*/')):
     m=json.load(open(d+'meta.json'))
     by=[]
-    for c,v in sorted(m['checks'].items()):
+    for c,v in sorted(m['checks'].items(), key=lambda kv: (kv[0]!=m['property'], kv[0])):
         if v['exit']==1:
             ob=sorted(set(o.split('/')[0].split('.')[-1]+'/'+o.split('/',1)[1] if '/' in o else o for o in v['failed_obligations']))
             by.append("**%s**: %s"%(c, ", ".join("`%s`"%o for o in ob[:3])+(" …" if len(ob)>3 else "")))
